@@ -97,7 +97,10 @@ def run_shard(ctx):
                     n = {'day': rng.choice([1, 5, 10, 20, 29]), 'week': rng.randint(1, 4), 'month': rng.randint(1, 11), 'year': rng.choice([1, 2, 5])}[unit]
                     sign = rng.choice([1, -1])
                     if unit in ('day', 'week'):
-                        want = d + datetime.timedelta(days=sign * n * (7 if unit == 'week' else 1))
+                        try:
+                            want = d + datetime.timedelta(days=sign * n * (7 if unit == 'week' else 1))
+                        except OverflowError:
+                            continue      # outside years 1..9999
                     else:
                         want = add_months(d, sign * n * (12 if unit == 'year' else 1))
                     if want is None or want == 'missing-day' or (unit in ('month', 'year') and sign < 0 and (d.month - (n * (12 if unit == 'year' else 1)) % 12) <= 0):
